@@ -114,7 +114,11 @@ def covered : List Body :=
    VaxisModel.Gen.TermBodies.body_setDefaultTabStops, VaxisModel.Gen.TermBodies.body_sm, VaxisModel.Gen.TermBodies.body_rm,
    VaxisModel.Gen.TermBodies.body_decset, VaxisModel.Gen.TermBodies.body_decrst, VaxisModel.Gen.TermBodies.body_decrqm,
    VaxisModel.Gen.TermBodies.body_sgr, VaxisModel.Gen.TermBodies.body_osc,
-   VaxisModel.Gen.TermBodies.body_csi_arm_2071, VaxisModel.Gen.TermBodies.body_esc_arm_4e, VaxisModel.Gen.TermBodies.body_esc_arm_4f, VaxisModel.Gen.TermBodies.body_esc_arm_3d, VaxisModel.Gen.TermBodies.body_esc_arm_3e, VaxisModel.Gen.TermBodies.body_esc_arm_2830, VaxisModel.Gen.TermBodies.body_esc_arm_2930, VaxisModel.Gen.TermBodies.body_esc_arm_2a30, VaxisModel.Gen.TermBodies.body_esc_arm_2b30, VaxisModel.Gen.TermBodies.body_esc_arm_2842, VaxisModel.Gen.TermBodies.body_esc_arm_2942, VaxisModel.Gen.TermBodies.body_esc_arm_2a42, VaxisModel.Gen.TermBodies.body_esc_arm_2b42, VaxisModel.Gen.TermBodies.body_c0_arm_0e, VaxisModel.Gen.TermBodies.body_c0_arm_0f]
+   VaxisModel.Gen.TermBodies.body_csi_arm_2071, VaxisModel.Gen.TermBodies.body_esc_arm_4e, VaxisModel.Gen.TermBodies.body_esc_arm_4f, VaxisModel.Gen.TermBodies.body_esc_arm_3d, VaxisModel.Gen.TermBodies.body_esc_arm_3e, VaxisModel.Gen.TermBodies.body_esc_arm_2830, VaxisModel.Gen.TermBodies.body_esc_arm_2930, VaxisModel.Gen.TermBodies.body_esc_arm_2a30, VaxisModel.Gen.TermBodies.body_esc_arm_2b30, VaxisModel.Gen.TermBodies.body_esc_arm_2842, VaxisModel.Gen.TermBodies.body_esc_arm_2942, VaxisModel.Gen.TermBodies.body_esc_arm_2a42, VaxisModel.Gen.TermBodies.body_esc_arm_2b42, VaxisModel.Gen.TermBodies.body_c0_arm_0e, VaxisModel.Gen.TermBodies.body_c0_arm_0f,
+   -- round 4: the arms that only answer the child / post an event / are empty, and the statements of csi() in front of its switch
+   VaxisModel.Gen.TermBodies.body_csi_arm_63, VaxisModel.Gen.TermBodies.body_csi_arm_3e63, VaxisModel.Gen.TermBodies.body_csi_arm_6e,
+   VaxisModel.Gen.TermBodies.body_csi_arm_2470, VaxisModel.Gen.TermBodies.body_esc_arm_2338, VaxisModel.Gen.TermBodies.body_c0_arm_07,
+   VaxisModel.Gen.TermBodies.body_csi_pre]
 
 /-! Tactics: `body_norm` evaluates `evalBody` on a concrete body (first the interpreter itself, with
 the comparisons still folded so that their `Decidable` instances are built from normalised
